@@ -13,6 +13,9 @@ reads it), or omitted (extent measured from the Python definition's writes; only
 import kernels as K
 
 INF = float('inf')
+# offsets of 64-bit index types are pushed next to 2^62, not 2^63: several kernels add two offsets in int64_t before
+# subtracting (signed overflow = undefined behaviour that no array fitting in memory can reach)
+TOP64 = 2 ** 62
 
 
 class Ctx:
@@ -98,7 +101,7 @@ class Ctx:
             c = regular if regular is not None else (0 if r.random() < 0.25 else r.randint(0, maxc))
             out.append(out[-1] + c)
         if self.extreme and kind != 'f' and out[-1] - out[0] < 1000:
-            sh = thi - out[-1] - r.randint(0, 2)
+            sh = min(thi, TOP64) - out[-1] - r.randint(0, 2)
             out = [x + sh for x in out]
         return out
 
@@ -129,7 +132,7 @@ class Ctx:
 
     def shift_extreme(self, names, lists):
         """shift starts/stops-like lists next to the top of the narrowest type (pure arithmetic kernels only)"""
-        hi = min(self.view[nm][1] for nm in names)
+        hi = min(min(self.view[nm][1] for nm in names), TOP64)
         kind = self.view[names[0]][2]
         mx = max([0] + [x for l in lists for x in l])
         if kind == 'f' or hi is None:
@@ -1433,6 +1436,8 @@ def _(g):
 def _(g):
     n, p, ol = _red(g)
     ident = -INF if g.spec.kernel.name.endswith('max_complex') else INF
+    if g.flag():
+        ident = -100.0 if g.spec.kernel.name.endswith('max_complex') else 100.0
     return dict(toptr=2 * ol, fromptr=g.data('fromptr', 2 * n, -3, 3), parents=p, lenparents=n, outlength=ol, identity=ident)
 
 
